@@ -3,7 +3,7 @@
 verdict in seeded/<id>/meta.json.  usage: seed_status.py [seed-id ...]   (extra checks per seed: EXTRA below)"""
 import json, os, subprocess, sys, re
 V = os.path.dirname(os.path.dirname(os.path.abspath(__file__)))
-EXTRA = {"C01-2": ["C02"], "C02-2": ["C16"], "C04-1": ["C06"], "C04-2": ["C03"]}        # seeds that a neighbouring property's check is expected to see as well
+EXTRA = {"C05-8": ["C04"], "C02-7": ["C16"], "C02-8": ["C16"], "C04-5": ["C03"], "C10-5": ["C02"], "C01-2": ["C02"], "C02-2": ["C16"], "C04-1": ["C06"], "C04-2": ["C03"]}        # seeds that a neighbouring property's check is expected to see as well
 ids = sys.argv[1:] or sorted(os.listdir(V + "/seeded"))
 for sid in ids:
     d = os.path.join(V, "seeded", sid)
